@@ -722,6 +722,15 @@ class Walk:
                 self.close()                        # the drivers close right after a reset
             else:
                 self.service()
+        if not self.dead and r.chance(0.35) and self.connected and not self.errored and self.broker.connack_sent:
+            # close the client in the middle of things: a stop request whose DISCONNECT has not been flushed yet,
+            # operations accepted after it, then the reset
+            self.user_disconnect()
+            if r.chance(0.5):
+                self.cap = r.choice([4, 5, 4096])
+                self.service()
+            for _ in range(r.choice([1, 2, 3])):
+                self.user_op()
         if not self.dead:
             self.quiesce()
         return self
